@@ -291,6 +291,9 @@ func checkC12(c *core.Check) {
 			}
 		}
 	}
+	if !batchCheck(c) {
+		return
+	}
 	jr, err := core.Judge("Trace_Determinism", events, nil)
 	if err != nil {
 		c.HarnessError(err.Error())
@@ -313,4 +316,130 @@ func checkC12(c *core.Check) {
 			return ""
 		}()}, fmt.Sprintf("generation of %q is not deterministic: %d distinct outputs over %d runs: %v", rj.Case, len(detail[rj.Case]), procs*perProc, trunc(fmt.Sprint(detail[rj.Case]), 400)))
 	}
+}
+
+// batchCheck: `goag --dir` (spec/Batch.tla). Every batch of MC_Batch is laid out as a directory of sub-directories
+// and generated by one call of the real GenerateDir in a fresh process; every kind of item is generated alone in a
+// fresh process as well; TLC (Trace_Batch) judges Independent, FailsAtFirst and PrefixDone on what was left.
+func batchCheck(c *core.Check) bool {
+	r, err := core.RunTLC(core.TLCOpts{Module: "MC_Batch", Cfg: "MC_Batch.cfg", Workers: 2, Timeout: 5 * time.Minute})
+	if err != nil || r.Error != "" {
+		c.HarnessError(fmt.Sprintf("MC_Batch: %v %s", err, r.Error))
+		return false
+	}
+	if r.InvViolated != "" {
+		c.Note("MODEL: design check MC_Batch reports %s violated", r.InvViolated)
+	}
+	c.AddTLC(r)
+	er, err := core.RunTLC(core.TLCOpts{Module: "MC_Batch", Cfg: "MC_Batch_emit.cfg", Workers: 1, Timeout: 5 * time.Minute})
+	if err != nil || er.Error != "" {
+		c.HarnessError(fmt.Sprintf("MC_Batch emit: %v %s", err, er.Error))
+		return false
+	}
+	type item struct {
+		Kind string `json:"kind"`
+	}
+	seen := map[string]bool{}
+	var batches [][]item
+	for _, j := range er.JSON {
+		var v struct {
+			Batch []item `json:"batch"`
+		}
+		if json.Unmarshal(j, &v) == nil && len(v.Batch) > 0 && !seen[string(j)] {
+			seen[string(j)] = true
+			batches = append(batches, v.Batch)
+		}
+	}
+	sort.Slice(batches, func(i, j int) bool { return fmt.Sprint(batches[i]) < fmt.Sprint(batches[j]) })
+	if len(batches) == 0 {
+		c.HarnessError("MC_Batch emit: no batches")
+		return false
+	}
+	str := aspec.Schema{K: "string"}
+	good := &aspec.ASpec{Base: aspec.Base{Form: "none"}, SpecName: "openapi.yaml", Flags: aspec.Flags{APIHandler: true, Client: true, DoNotEdit: true}, Security: aspec.Sec{K: "none"}}
+	t := []aspec.Seg{{K: "lit", S: "items"}, {K: "var", S: "id"}}
+	op := simpleOp("GET", t)
+	op.Params = append(op.Params, aspec.Param{In: "header", Name: "X-Trace", Schema: str})
+	good.Paths = []aspec.PathItem{{Template: t, Ops: []aspec.Op{op, simpleOp("DELETE", t)}}}
+	goodDoc, _ := json.MarshalIndent(good.Document(), "", " ")
+	// refused by the generator: a path parameter of object type
+	bad := strings.Replace(string(goodDoc), `"type": "string"`, `"type": "object"`, 1)
+	specOf := map[string]string{"plain": string(goodDoc), "cors": string(goodDoc), "fail": bad, "nospec": ""}
+	cfgOf := map[string]string{"cors": "cors:\n  enable: true\n"}
+	base := core.GenJob{SpecName: "openapi.yaml", Package: "gen", SpecHandler: "openapi.yaml", Client: true, APIHandler: true, DoNotEdit: true, FreshProcess: true}
+	var chains [][]core.GenJob
+	for _, k := range []string{"plain", "cors", "fail"} {
+		j := base
+		j.ID, j.Spec, j.Config = "lone-"+k, specOf[k], cfgOf[k]
+		chains = append(chains, []core.GenJob{j})
+	}
+	for bi, b := range batches {
+		j := base
+		j.ID = fmt.Sprintf("batch%d", bi)
+		for ii, it := range b {
+			j.Batch = append(j.Batch, core.BatchItem{Name: fmt.Sprintf("d%d_%s", ii+1, it.Kind), Spec: specOf[it.Kind], Config: cfgOf[it.Kind]})
+		}
+		chains = append(chains, []core.GenJob{j})
+	}
+	res := core.RunGenChains(chains, 0)
+	sig := func(files map[string]core.FileInfo, prefix string) string {
+		var parts []string
+		for n, f := range files {
+			if strings.HasPrefix(n, prefix) {
+				parts = append(parts, strings.TrimPrefix(n, prefix)+"="+f.Sha)
+			}
+		}
+		sort.Strings(parts)
+		return strings.Join(parts, ",")
+	}
+	for i := 0; i < len(chains); i++ {
+		if len(res[i]) != 1 || strings.HasPrefix(res[i][0].Err, "HARNESS") {
+			c.HarnessError(fmt.Sprintf("batch run %s: %+v", chains[i][0].ID, res[i]))
+			return false
+		}
+	}
+	lone := map[string]string{"plain": sig(res[0][0].Files, ""), "cors": sig(res[1][0].Files, "")}
+	if !res[0][0].OK || !res[1][0].OK || res[2][0].OK || lone["plain"] == lone["cors"] || lone["plain"] == "" {
+		c.HarnessError(fmt.Sprintf("batch baselines are not what the universe assumes: plain ok=%v cors ok=%v fail ok=%v", res[0][0].OK, res[1][0].OK, res[2][0].OK))
+		return false
+	}
+	var events [][]byte
+	info := map[string]any{}
+	for bi, b := range batches {
+		r := res[3+bi][0]
+		written := []string{}
+		errItem := 0
+		for ii, it := range b {
+			name := fmt.Sprintf("d%d_%s", ii+1, it.Kind)
+			s := sig(r.Files, name+"/")
+			switch {
+			case s == "":
+				written = append(written, "none")
+			case s == lone["plain"]:
+				written = append(written, "out:plain")
+			case s == lone["cors"]:
+				written = append(written, "out:cors")
+			default:
+				written = append(written, "other")
+			}
+			if !r.OK && errItem == 0 && strings.Contains(r.Err, fmt.Sprintf("%q", name)) {
+				errItem = ii + 1
+			}
+		}
+		cid := fmt.Sprintf("batch%d", bi)
+		bs, _ := json.Marshal(map[string]any{"ev": "Batch", "case": cid, "items": b, "written": written, "ok": r.OK, "errItem": errItem})
+		events = append(events, bs)
+		info[cid] = map[string]any{"items": b, "written": written, "ok": r.OK, "error": r.Err, "panic": trunc(r.Panic, 300)}
+	}
+	jr, err := core.Judge("Trace_Batch", events, nil)
+	if err != nil {
+		c.HarnessError(err.Error())
+		return false
+	}
+	c.AddTLC(jr.TLC)
+	c.Add("batches_replayed", int64(len(batches)))
+	for _, rj := range jr.Rejects {
+		c.Violation(map[string]any{"batch": info[rj.Case], "reject": rj}, fmt.Sprintf("goag --dir: %v: %s", info[rj.Case], rj.Why))
+	}
+	return true
 }
